@@ -9,10 +9,15 @@ CFGS = {
     "quick": [("c03-a", dict(WalSteps="TRUE", WalParts=PARTS, CrashAt=WAL, MaxStmts=3, MaxRows=3, MaxFlush=1, MaxCrash=1, Tables='{"t1"}'), None),
               ("c03-b", dict(WalSteps="TRUE", WalParts=PARTS, CrashAt=WAL, MaxStmts=4, MaxRows=2, MaxFlush=0, MaxCrash=1, Tables='{"t1"}', Vals="{1}"), None),
               # a flush between statements, then a statement cut in its log append (page LSNs on disk vs record LSNs)
-              ("c03-d", dict(WalSteps="TRUE", WalParts=PARTS, CrashAt=WAL, MaxStmts=4, MaxRows=2, MaxFlush=1, MaxCrash=1, Tables='{"t1"}', Vals="{1}"), None)],
+              ("c03-d", dict(WalSteps="TRUE", WalParts=PARTS, CrashAt=WAL, MaxStmts=4, MaxRows=2, MaxFlush=1, MaxCrash=1, Tables='{"t1"}', Vals="{1}"), None),
+              # a table grown until its INTERNAL root splits (the tree gets its third level), every log write of those statements cut
+              ("c03-deep", dict(WalSteps="TRUE", WalParts=PARTS, CrashAt=WAL, MaxStmts=5, MaxRows=3, MaxFlush=1, MaxCrash=1, Tables='{"t1"}', Vals="{1}",
+                                Ops='{"create", "insert"}', Script="<- ScriptGrowDeep", ScriptRows="<- RowsGrowDeep"), None)],
     "thorough": [("c03-a", dict(EmitMod=2, WalSteps="TRUE", WalParts=PARTS, CrashAt=WAL, MaxStmts=4, MaxRows=3, MaxFlush=1, MaxCrash=1, Tables='{"t1"}'), 80000),
                  ("c03-b", dict(EmitMod=2, WalSteps="TRUE", WalParts=PARTS, CrashAt=WAL, MaxStmts=5, MaxRows=4, MaxFlush=1, MaxCrash=2, Tables='{"t1"}', Vals="{1}"), 80000),
-                 ("c03-c", dict(WalSteps="TRUE", WalParts=PARTS, CrashAt='{"wal", "idle"}', MaxStmts=4, MaxRows=2, MaxFlush=1, MaxCrash=2, Tables='{"t1"}', Vals="{1}"), 60000)],
+                 ("c03-c", dict(WalSteps="TRUE", WalParts=PARTS, CrashAt='{"wal", "idle"}', MaxStmts=4, MaxRows=2, MaxFlush=1, MaxCrash=2, Tables='{"t1"}', Vals="{1}"), 60000),
+                 ("c03-deep", dict(WalSteps="TRUE", WalParts=PARTS, CrashAt='{"wal", "idle"}', MaxStmts=5, MaxRows=3, MaxFlush=2, MaxCrash=2, Tables='{"t1"}', Vals="{1}",
+                                   Ops='{"create", "insert"}', Script="<- ScriptGrowDeep", ScriptRows="<- RowsGrowDeep"), 60000)],
 }
 
 
